@@ -244,8 +244,8 @@ theorem no_sleeper_with_work_holds (ns np : Nat) : NoSleeperWithWork step? ns np
 theorem signal_only_when_empty_counterexample : ¬ NoSleeperWithWork stepIfEmpty? 2 2 := by
   intro h
   have hr : TS.Reachable stepIfEmpty? (init 2 2)
-      { streams := [{ q := [⟨10, 1, false⟩], cur := 1, popper := none },
-                    { q := [⟨20, 1, false⟩], cur := 1, popper := some 0 }],
+      { streams := [{ q := [⟨10, 1, false⟩], cur := 1, popper := none, len := 1 },
+                    { q := [⟨20, 1, false⟩], cur := 1, popper := some 0, len := 1 }],
         charged := [0], parkedQ := [1], procs := [.busy, .parked] } :=
     ⟨[.park 0, .park 1, .put 0 10 1, .charge 0, .put 1 20 1, .charge 1, .pop 0 1], by decide⟩
   have := h _ hr (by decide)
@@ -296,6 +296,34 @@ theorem blocked_gets_timeout (ns np : Nat) (st : St) (s p : Nat) (x : S1)
   · simp [setS, ginv.np]
   · refine ⟨x.timeout.get { off := 0, seq := x.commit, timeout := true } [], by simp [setS, hlt], ?_, ?_, ?_⟩ <;>
       simp [S1.get, S1.timeout, signalOwner, hw, ho]
+
+/-- **stream.len is not the queue length**: in every reachable state `len` equals the number of queued
+    regular events MINUS the time-out events the owner has taken so far (`tryUnblock` installs its event
+    without `len++`, `get` does `len--` for it too) … -/
+theorem len_lags_by_timeouts (ns np : Nat) (st : St) (s : Nat) (x : S1)
+    (hr : TS.Reachable step? (init ns np) st) (hx : st.streams[s]? = some x) :
+    x.len = (regCount x.q : Int) - x.tmos :=
+  ((ginv_reachable ns np st hr).str s x hx).ln
+
+/-- … so after one consumed time-out a freshly put event leaves `len = 0` with a non-empty queue:
+    `len > 0` is NOT a test for "an event is queued" (a `tryUnblock` guarded by it would install its
+    time-out event — as first AND last — over the queued event and erase it). The guard the code uses,
+    `first != nil`, is the model's `q ≠ []`, which is what the `timeout` step requires. Replayed on the
+    real streamer by the put-then-heartbeat schedules (`c04.stream 1 1 P0 J0 A0 I0 C0.0 B0 T B0 W0 …`). -/
+theorem len_is_not_queue_length :
+    ∃ st x, TS.Reachable step? (init 1 1) st ∧ st.streams[0]? = some x ∧
+      x.q ≠ [] ∧ x.len = 0 ∧ step? st (.timeout 0) = none :=
+  ⟨_, _, ⟨[.put 0 10 1, .charge 0, .pop 0 0, .attach 0 0, .get 0 0 10 1 false, .commit 0 1, .bwait 0 0,
+           .timeout 0, .get 0 0 0 1 true, .bwait 0 0, .put 0 20 2], rfl⟩, rfl, by decide, by decide, by decide⟩
+
+/-- the `timeout` step (tryUnblock past its guards) is enabled only on an empty queue: a queued event is
+    never overwritten -/
+theorem timeout_only_on_empty_queue (st st' : St) (s : Nat) (x : S1)
+    (hx : st.streams[s]? = some x) (hs : step? st (.timeout s) = some st') : x.q = [] := by
+  simp only [step?, hx] at hs
+  split at hs
+  · rename_i hc; exact hc.2.2
+  · simp at hs
 
 /-- non-vacuity: put-during-detach; the stream is re-charged by tryDetach and a sleeping
     processor is signalled -/
